@@ -9,7 +9,6 @@ import (
 	"os/exec"
 	"path/filepath"
 	"regexp"
-	"sort"
 	"strings"
 	"sync"
 	"time"
@@ -67,9 +66,19 @@ type parent struct {
 	outs   map[int]outcome
 	stage1 map[int]outcome // first-stage timeouts / crashes awaiting confirmation
 	nChild int
-	crashNeighbors map[int][]int
 	restarts int
+	byID     map[int]job
+	self     string
+	// confirmation state
+	confirmSem    chan struct{}
+	confirmedBad  map[string]int // kind@site -> number of confirmations alone with the long bound
+	nConfirm      int
+	nInconclusive int
+	unattributed  int
+	fast          bool // a spinning call site has been confirmed: first-stage bound is shortened
 }
+
+const fastBoundMS = 300
 
 func (p *parent) run(genFile, outFile string, workers, reps1, reps2 int, only string) error {
 	self, err := os.Executable()
@@ -122,7 +131,13 @@ func (p *parent) run(genFile, outFile string, workers, reps1, reps2 int, only st
 	}
 	p.outs = map[int]outcome{}
 	p.stage1 = map[int]outcome{}
-	p.crashNeighbors = map[int][]int{}
+	p.confirmedBad = map[string]int{}
+	p.confirmSem = make(chan struct{}, 1)
+	p.self = self
+	p.byID = map[int]job{}
+	for _, j := range jobs {
+		p.byID[j.ID] = j
+	}
 
 	// batches per server kind (one server per child), order preserved inside a batch
 	bySrv := map[string][]job{}
@@ -152,7 +167,7 @@ func (p *parent) run(genFile, outFile string, workers, reps1, reps2 int, only st
 		go func() {
 			defer wg.Done()
 			for b := range ch {
-				if err := p.runBatch(self, b, p.bound, 1024, 0); err != nil {
+				if err := p.runBatch(self, b, p.bound, 1024, 0, false); err != nil {
 					p.mu.Lock()
 					if firstErr == nil {
 						firstErr = err
@@ -171,78 +186,7 @@ func (p *parent) run(genFile, outFile string, workers, reps1, reps2 int, only st
 		return firstErr
 	}
 	stage1Wall := time.Since(t0)
-
-	// confirmation: re-run every first-stage timeout / crash alone, with a long bound
-	byID := map[int]job{}
-	for _, j := range jobs {
-		byID[j.ID] = j
-	}
-	var ids []int
-	for id := range p.stage1 {
-		ids = append(ids, id)
-	}
-	sort.Ints(ids)
-	confirmedBad := map[string]int{}
-	nConfirm, nInconclusive, unattributed := 0, 0, 0
-	for _, id := range ids {
-		s1 := p.stage1[id]
-		key := s1.Kind + "@" + s1.Site
-		if confirmedBad[key] >= 2 && s1.Site != "" {
-			o := s1
-			o.Msg = "[as confirmed for the same site] " + o.Msg
-			p.outs[id] = o
-			continue
-		}
-		if nConfirm >= p.budget {
-			o := s1
-			o.Kind = "slow"
-			o.Msg = "[not confirmed: budget] " + o.Msg
-			p.outs[id] = o
-			nInconclusive++
-			continue
-		}
-		nConfirm++
-		delete(p.outs, id)
-		if err := p.runBatch(self, []job{byID[id]}, p.cbound, 0, 4096); err != nil {
-			return err
-		}
-		o, ok := p.outs[id]
-		if !ok {
-			return fmt.Errorf("confirmation of request %d produced no outcome", id)
-		}
-		if s2, bad := p.stage1[id]; bad && (o.Kind == "timeout" || o.Kind == "fatal") {
-			_ = s2
-			confirmedBad[o.Kind+"@"+o.Site]++
-			confirmedBad[key]++
-			continue
-		}
-		// the request alone is fine
-		if s1.Kind == "fatal" {
-			// the crash came from a goroutine started by an earlier request: try the neighbours alone
-			found := false
-			for _, nid := range p.crashNeighbors[id] {
-				if nConfirm >= p.budget {
-					break
-				}
-				nConfirm++
-				nj := byID[nid]
-				nj.SettleMS = 500
-				prev := p.outs[nid]
-				delete(p.outs, nid)
-				if err := p.runBatch(self, []job{nj}, p.cbound, 0, 4096); err != nil {
-					return err
-				}
-				if no := p.outs[nid]; no.Kind == "fatal" {
-					found = true
-					break
-				}
-				p.outs[nid] = prev
-			}
-			if !found {
-				unattributed++
-			}
-		}
-	}
+	nConfirm, nInconclusive, unattributed := p.nConfirm, p.nInconclusive, p.unattributed
 
 	// trace
 	w, err := tr.New(outFile)
@@ -323,9 +267,16 @@ func crashInfo(stderr string) (msg, site, top string) {
 }
 
 // runBatch runs the jobs in child processes until every job has an outcome.
-func (p *parent) runBatch(self string, batch []job, boundMS, memMB, asMB int) error {
+func (p *parent) runBatch(self string, batch []job, boundMS, memMB, asMB int, confirming bool) error {
 	rest := batch
 	for len(rest) > 0 {
+		if !confirming {
+			p.mu.Lock()
+			if p.fast {
+				boundMS = min(boundMS, fastBoundMS)
+			}
+			p.mu.Unlock()
+		}
 		p.mu.Lock()
 		p.nChild++
 		n := p.nChild
@@ -412,6 +363,16 @@ func (p *parent) runBatch(self string, batch []job, boundMS, memMB, asMB int) er
 			if werr == nil {
 				return fmt.Errorf("child %d exited 0 after %d of %d jobs", n, done, len(rest))
 			}
+			if ee, ok := werr.(*exec.ExitError); ok && ee.ExitCode() == exitTimeout && !killed {
+				// the child reported a timeout for rest[done-1] and terminated itself
+				if !confirming && done > 0 {
+					if err := p.resolve(rest[done-1].ID, nil); err != nil {
+						return err
+					}
+				}
+				rest = rest[done:]
+				continue
+			}
 			j := rest[done]
 			se, _ := os.ReadFile(filepath.Join(dir, "stderr.txt"))
 			msg, site, top := crashInfo(string(se))
@@ -425,17 +386,109 @@ func (p *parent) runBatch(self string, batch []job, boundMS, memMB, asMB int) er
 			p.mu.Lock()
 			p.outs[j.ID] = o
 			p.stage1[j.ID] = o
+			p.mu.Unlock()
 			var nb []int
 			for k := done - 1; k >= 0 && k >= done-3; k-- {
 				nb = append(nb, rest[k].ID)
 			}
-			p.crashNeighbors[j.ID] = nb
-			p.mu.Unlock()
+			if !confirming {
+				if err := p.resolve(j.ID, nb); err != nil {
+					return err
+				}
+			}
 			rest = rest[done+1:]
 			continue
 		}
 		// all jobs answered; exit code 77 happens when the last job timed out
+		if ee, ok := werr.(*exec.ExitError); ok && ee.ExitCode() == exitTimeout && !confirming && done > 0 {
+			if err := p.resolve(rest[done-1].ID, nil); err != nil {
+				return err
+			}
+		}
 		rest = nil
+	}
+	return nil
+}
+
+// resolve decides what a first-stage timeout / crash of request id becomes: it is re-run alone with the long bound
+// (confirmation) unless the same kind@site has already been confirmed twice in this run.
+func (p *parent) resolve(id int, neighbors []int) error {
+	p.mu.Lock()
+	s1 := p.stage1[id]
+	key := s1.Kind + "@" + s1.Site
+	if p.confirmedBad[key] >= 2 && s1.Site != "" {
+		o := s1
+		o.Msg = "[as confirmed for the same site] " + o.Msg
+		p.outs[id] = o
+		p.mu.Unlock()
+		return nil
+	}
+	if p.nConfirm >= p.budget {
+		o := s1
+		o.Kind = "slow"
+		o.Msg = "[not confirmed: budget] " + o.Msg
+		p.outs[id] = o
+		p.nInconclusive++
+		p.mu.Unlock()
+		return nil
+	}
+	p.nConfirm++
+	delete(p.outs, id)
+	p.mu.Unlock()
+	p.confirmSem <- struct{}{}
+	defer func() { <-p.confirmSem }()
+	if err := p.runBatch(p.self, []job{p.byID[id]}, p.cbound, 0, 4096, true); err != nil {
+		return err
+	}
+	p.mu.Lock()
+	o, ok := p.outs[id]
+	if !ok {
+		p.mu.Unlock()
+		return fmt.Errorf("confirmation of request %d produced no outcome", id)
+	}
+	if o.Kind == "timeout" || o.Kind == "fatal" {
+		p.confirmedBad[o.Kind+"@"+o.Site]++
+		if o.Kind == "timeout" && o.Site != "" && p.confirmedBad[o.Kind+"@"+o.Site] >= 2 {
+			p.fast = true
+		}
+		p.mu.Unlock()
+		return nil
+	}
+	p.mu.Unlock()
+	// the request alone is fine
+	if s1.Kind == "fatal" {
+		// the crash came from a goroutine started by an earlier request: try the neighbours alone
+		found := false
+		for _, nid := range neighbors {
+			p.mu.Lock()
+			if p.nConfirm >= p.budget {
+				p.mu.Unlock()
+				break
+			}
+			p.nConfirm++
+			nj := p.byID[nid]
+			prev := p.outs[nid]
+			delete(p.outs, nid)
+			p.mu.Unlock()
+			nj.SettleMS = 500
+			if err := p.runBatch(p.self, []job{nj}, p.cbound, 0, 4096, true); err != nil {
+				return err
+			}
+			p.mu.Lock()
+			no := p.outs[nid]
+			if no.Kind == "fatal" {
+				found = true
+				p.mu.Unlock()
+				break
+			}
+			p.outs[nid] = prev
+			p.mu.Unlock()
+		}
+		if !found {
+			p.mu.Lock()
+			p.unattributed++
+			p.mu.Unlock()
+		}
 	}
 	return nil
 }
